@@ -270,7 +270,7 @@ PROPS["C02"] = {
     "technique": "bounded symbolic execution from go/ssa with implicit panic/index/nil/termination assertions on every path: cue.Context.CompileBytes -> Validate -> Syntax/format.Node -> MarshalJSON on symbolic source bytes; parser.ParseFile; scanner.Scan; adt.BinOp; path feasibility decided by z3 and the byte-domain pre-solver",
     "bounds": {
         "quick": "pipeline: every source of <= 3 bytes (48 543 paths); parser: every source of <= 3 bytes with comments; scanner: every source of <= 3 bytes (comments on); BinOp: every operator x every pair of atoms (null, bool, int/float < 10^3 with exponent in [-1,1], string/bytes <= 2 bytes)",
-        "thorough": "scanner <= 4 bytes in both modes; parser <= 3 bytes in both comment modes; BinOp operands < 10^6, strings <= 3 bytes",
+        "thorough": "scanner <= 4 bytes in both modes; parser <= 4 bytes with comments (1 913 674 paths), <= 3 bytes without; BinOp operands < 10^6, strings <= 3 bytes",
     },
     "outside": ["sources > 3 bytes (pipeline, parser), > 4 bytes (scanner)", "division", "YAML export, CLI", "repeatability of output", "resource bounds"],
     "assumptions": APD_ASSUMPTIONS,
@@ -297,7 +297,7 @@ PROPS["C02"] = {
             "harness": ["parser/total.go"],
             "entries": {
                 "quick": [{"name": "verifHarnessParseTotal", "params": {"N": 3}}],
-                "thorough": [{"name": "verifHarnessParseTotal", "params": {"N": 3}}, {"name": "verifHarnessParseTotal", "params": {"N": 3, "COMMENTS": 0}}],
+                "thorough": [{"name": "verifHarnessParseTotal", "params": {"N": 4}}, {"name": "verifHarnessParseTotal", "params": {"N": 3, "COMMENTS": 0}}],
             },
         },
         {
